@@ -25,7 +25,8 @@ back the state the word started from and k redos the state and stack after it; `
 `C06_counterexample_opposite_order`) — and `Delete`, which the model does not contain; it is decided by the check's
 oracle only.  (5) **`Compound`** (`Model/Compound.lean`, tied by the `kcmd` correspondence): `can_execute` of every
 sub-command is asked before any runs, `can_undo` after all ran; `C06_compound_of_one` — the two halves of a command, met
-by one state, are the command alone; `C06_compound_undo` / `C06_compound_redo` — when the snapshots are stable along the
+by one state, are the command alone; `C06_compound_single` — the stack of one-element compounds simulates the
+stack of commands letter by letter; `C06_compound_undo` / `C06_compound_redo` — when the snapshots are stable along the
 run and the sub-commands are covered ones, a compound that reports `can_undo` is undone to exactly the state before it
 and redone to exactly the state after it, as one stack entry.  When the snapshots are *not* stable, or `can_undo`
 refuses, the code does not restore the state (recorded finding F-C06-3; `C06_compound_refusal_witness` shows it in the
@@ -296,6 +297,27 @@ example : (∀ op ∈ exOps6b, ArityOK exMM6b op) ∧ okL exMM6b ({}, run exMM6b
     (`Snap.fix`), when both meet the same state, are `prepare` -/
 theorem C06_compound_of_one (mm : MM) (s : St) (sp : Spec) : prepare mm s sp = joinPrep mm s sp :=
   prepare_snap_fix mm s sp
+
+/-- a letter of the single-command alphabet as a letter over compounds -/
+def Letter.k : Letter → KLetter
+  | .exec sp => .exec [sp]
+  | .undo => .undo
+  | .redo => .redo
+
+/-- the stack of compounds that holds, entry by entry, the compound of one of a stack of commands -/
+def KRel (ks : KStack) (cs : CStack) : Prop := ks.stack = cs.stack.map (fun c => [c]) ∧ ks.n = cs.n
+
+/-- **`Compound(c)` is `c`**: letter by letter — execute, undo, redo — the stack of compounds of one simulates the
+    stack of commands: same Store state afterwards, success exactly when the command alone succeeds, and the stacks stay
+    related.  Every theorem above about words of single commands therefore speaks about their one-element compounds. -/
+theorem C06_compound_single (mm : MM) (ks : KStack) (cs : CStack) (s : St) (l : Letter) (hrel : KRel ks cs) :
+    (kstep mm ks s l.k).2.1 = (cstep mm cs s l).2.1 ∧
+    ((kstep mm ks s l.k).2.2 = "ok" ↔ (cstep mm cs s l).2.2 = "ok") ∧
+    KRel (kstep mm ks s l.k).1 (cstep mm cs s l).1 := by
+  cases l with
+  | exec sp => exact kstep_exec_single mm ks cs s sp hrel
+  | undo => exact kstep_undo_single mm ks cs s hrel
+  | redo => exact kstep_redo_single mm ks cs s hrel
 
 /-- **Undo of a `Compound`**: from every state satisfying the invariants and every stack, a compound whose sub-commands
     (any number, any of Set / Add / Remove / Move, the same feature several times if one likes) keep their snapshots
